@@ -70,8 +70,9 @@ func H_C14_carriers() {
 	va := vrtIntRange("va", -6, 6)
 	vb := vrtIntRange("vb", -6, 6)
 	if expr == "a // b" || expr == "a % b" {
-		// pinned only where flooring and truncation agree
-		vrtAssume(va >= 0 && vb > 0)
+		// every sign combination: which rounding is used is the specification's
+		// business (C05), but it may not depend on the carrier
+		vrtAssume(vb != 0)
 	}
 	c1 := vrtChoose("carrier1", c14Carriers)
 	c2 := vrtChoose("carrier2", c14Carriers)
